@@ -151,6 +151,31 @@ ben("f38-repair-shape-is-silent", ["C18", "C08"],
     ("src/io/sys/unix/mod.rs", "    /// publish the coroutine that blocks on this io.", "    #[cfg(feature = \"io_timeout\")]\n    pub(crate) fn remaining_timeout(&self, timeout: std::time::Duration) -> std::time::Duration {\n        let now = crate::timeout_list::now();\n        match self.op_deadline.load(Ordering::Relaxed) {\n            0 => {\n                let ns = u64::try_from(timeout.as_nanos()).unwrap_or(u64::MAX);\n                self.op_deadline.store(now.saturating_add(ns).max(1), Ordering::Relaxed);\n                timeout\n            }\n            deadline => std::time::Duration::from_millis(deadline.saturating_sub(now).div_ceil(1_000_000)),\n        }\n    }\n\n    /// publish the coroutine that blocks on this io."),
     ("src/io/sys/unix/mod.rs", "    pub fn reset(&self) -> usize {\n        self.io_flag.swap(0, Ordering::AcqRel)", "    pub fn reset(&self) -> usize {\n        #[cfg(feature = \"io_timeout\")]\n        self.op_deadline.store(0, Ordering::Relaxed);\n        self.io_flag.swap(0, Ordering::AcqRel)"))
 
+# ---- benign variants of the F29-F37 repairs (the rules must accept other ways of writing the repaired shape)
+ben("f37-nested-match-form", ["C14", "C13"],
+    ("src/scoped.rs", "    match (ret, dtor_panic) {\n        (Ok(ret), None) => ret,\n        // the panic of the owner takes precedence, only the first panic is propagated\n        (Err(e), _) | (Ok(_), Some(e)) => panic::resume_unwind(e),\n    }",
+     "    match ret {\n        Ok(v) => match dtor_panic {\n            None => v,\n            Some(e) => panic::resume_unwind(e),\n        },\n        Err(e) => panic::resume_unwind(e),\n    }"))
+ben("f36-explicit-drop-form", ["C14", "C16"],
+    ("src/cqueue.rs", "        ret\n        // the cqueue is dropped here, in place: the select coroutines have a ref to it\n    };\n    ret.unwrap_or_else(|e| panic::resume_unwind(e))",
+     "        drop(cqueue);\n        ret\n    };\n    match ret {\n        Ok(v) => v,\n        Err(e) => panic::resume_unwind(e),\n    }"))
+ben("f32-budget-strictly-greater-form", ["C01", "C17"],
+    ("src/scheduler.rs", "                    if ticks >= IO_POLL_INTERVAL {\n                        return self.yield_to_selector(id);\n                    }\n                    continue 'work;\n                }\n                None => {",
+     "                    if ticks > IO_POLL_INTERVAL - 1 {\n                        self.yield_to_selector(id);\n                        return;\n                    }\n                    continue 'work;\n                }\n                None => {"))
+ben("f29-remaining-time-form", ["C08"],
+    ("src/timeout_list.rs", "                    let elapsed = now().saturating_sub(start);\n                    if time > elapsed {\n                        thread::park_timeout(Duration::from_nanos(time - elapsed));\n                    }",
+     "                    let left = time.saturating_sub(now().saturating_sub(start));\n                    if left != 0 {\n                        thread::park_timeout(Duration::from_nanos(left));\n                    }"))
+ben("f35-load-then-store-form", ["C17", "C02"],
+    ("src/io/thread.rs", "        while !done.swap(false, Ordering::Acquire) {\n            std::thread::park();\n        }", "        loop {\n            if done.swap(false, Ordering::Acquire) {\n                break;\n            }\n            std::thread::park();\n        }"))
+
+ben("f27-if-else-guard-form", ["C09", "C12"],
+    ("src/park.rs", "            let _g = (!std::thread::panicking()).then(crate::cancel::CancelDisableGuard::new);\n", "            let _g = if std::thread::panicking() {\n                None\n            } else {\n                Some(crate::cancel::CancelDisableGuard::new())\n            };\n"))
+ben("f31-if-let-form", ["C15"],
+    ("src/local.rs", "            let raw_pointer = match found {\n                Some(p) => p,\n                None => {", "            let raw_pointer = if let Some(p) = found {\n                p\n            } else {\n                {"))
+ben("f30-early-return-form", ["C16", "C09"],
+    ("src/cqueue.rs", "        if get_co_para().is_some() && !std::thread::panicking() {\n            trigger_cancel_panic();\n        }", "        if get_co_para().is_none() {\n            return;\n        }\n        if std::thread::panicking() {\n            return;\n        }\n        trigger_cancel_panic();"))
+ben("f26-guard-let-form", ["C14"],
+    ("src/cqueue.rs", "        let res = {\n            let _g = CancelDisableGuard::new();\n            handle.join()\n        };", "        let g = CancelDisableGuard::new();\n        let res = handle.join();\n        drop(g);"))
+
 # ---- F18: revert (nested run while the wait_kernel guard is held)
 mut("f18-revert-nested-run-under-guard", ["C01", "C02"], "no-nested-run-under-guard",
     ("src/park.rs", "                drop(g);\n                // here may have recursive call for subscribe", "                let _keep = &g;\n                // here may have recursive call for subscribe"))
